@@ -124,7 +124,7 @@ class Ctx:
         for sig in sorted(self.found):
             hit = None
             for f in open_known:
-                if sig in f.get("signatures", []) or any(fnmatch.fnmatchcase(sig, pat) for pat in f.get("signatures", []) if "*" in pat or "?" in pat):
+                if sig in f.get("signatures", []) or any(fnmatch.fnmatchcase(sig, pat) for pat in f.get("signatures", []) if any(ch in pat for ch in "*?[")):
                     hit = f
                     break
             if hit is not None:
